@@ -85,9 +85,30 @@ Definition record_ok (k : kind) (glob : option resolution) (rt : route_res)
            end
       else absent (S2B "location") (r_attrs r)).
 
-(* [thrown]: Some id when the wrapped handler panicked with value number id *)
+(* --- how many Logger instances a request passes through, "as the options say" ---
+   a Logger attached router-wide sees a request once when the request is served by the router in
+   one of the scopes it was attached for; a Logger attached to a route (route option) sees every
+   run of that route's handler that goes through ServeHTTP or Route.HandleMiddleware;
+   Route.Handle runs the bare handler; Lookup + HandleMiddleware/Handle does not go through the
+   router-wide middleware at all. *)
+Definition attached_for (s : hscope) (a : attach) : bool :=
+  match a with AWithMiddleware => true | AWithMiddlewareFor mask => existsb (hscope_eqb s) mask end.
+
+Definition expected_records (k : kind) (d : dispatch) (globals : list attach)
+           (target_level alias_level : nat) : nat :=
+  let router_wide := List.length (filter (attached_for (scope_of k)) globals) in
+  match d with
+  | DServe => router_wide + match scope_of k with SRoute => target_level | _ => 0 end
+  | DAliasMiddleware => router_wide + alias_level + target_level
+  | DAliasHandle => router_wide + alias_level
+  | DLookupMiddleware => target_level
+  | DLookupHandle => 0
+  end.
+
+(* [thrown]: Some id when the wrapped handler panicked with value number id; [n]: number of
+   Logger instances the request passes through: one record each, all after the handler *)
 Definition spec_ok (k : kind) (glob : option resolution) (rt : route_res)
-           (method host path remote : bytes) (thrown : option N) (o : observation) : bool :=
+           (method host path remote : bytes) (thrown : option N) (n : nat) (o : observation) : bool :=
   o_same_response o
   && match thrown with
      | Some id =>
@@ -95,8 +116,9 @@ Definition spec_ok (k : kind) (glob : option resolution) (rt : route_res)
          match o_panic o with Some id' => N.eqb id id' | None => false end
          && match o_records o with [] => true | _ => false end
      | None =>
-         match o_panic o, o_records o with
-         | None, [r] => o_after_handler o && record_ok k glob rt method host path remote o r
-         | _, _ => false
+         match o_panic o with
+         | None => Nat.eqb (List.length (o_records o)) n && o_after_handler o
+                   && forallb (record_ok k glob rt method host path remote o) (o_records o)
+         | Some _ => false
          end
      end.
